@@ -77,7 +77,7 @@ def regenerate():
     for extra in ("gen_locktable", "gen_codectable", "gen_fluent", "gen_chk", "gen_chantable"):
         if os.path.exists(os.path.join(BIN, extra)) and os.path.exists(os.path.join(VERIF, "tools", extra, "target")):
             name = open(os.path.join(VERIF, "tools", extra, "target")).read().strip()
-            jobs.append((name, [os.path.join(BIN, extra)]))
+            jobs.append((name, [os.path.join(BIN, extra), "-repo", REPO]))
     for name, cmd in jobs:
         p = subprocess.run(cmd, stdout=subprocess.PIPE, stderr=subprocess.PIPE, text=True, env=goenv(), cwd=REPO)
         new = p.stdout if p.returncode == 0 else "(* generator failed: %s *)\nDefinition generator_failed : False := I.\n" % p.stderr[:500].replace("*)", "* )")
